@@ -80,6 +80,16 @@ def findOffset (nums : List Int) (prt : List Rat) : Option Nat :=
 def iprtOf (nums : List Int) (offset : Nat) : List Int :=
   nums.map (fun n => (n - nums.headD 0 + 5 - (offset : Int)) % 5)
 
+/-- The same expression evaluated in the unsigned 16-bit dtype of the KLM line-number field, as numpy evaluates it when
+the array is NOT converted first (every intermediate wraps modulo 2^16): `(n - n0 + 5 - off) % 5`. -/
+def iprtU16 (n n0 off : Nat) : Nat :=
+  ((((n + 65536 - n0) % 65536 + 5) % 65536 + 65536 - off) % 65536) % 5
+
+/-- two's-complement wrap into the signed 16-bit range (the POD field) -/
+def wrapI16 (x : Int) : Int := (x + 32768) % 65536 - 32768
+
+def iprtI16 (n n0 : Int) (off : Nat) : Int := wrapI16 (wrapI16 (wrapI16 (n - n0) + 5) - (off : Int)) % 5
+
 /-- `x[fix] = np.interp(fix, good, x[good])` over index sets given as predicates on (index, value) -/
 def interpFill (xs : List Rat) (fix good : Nat → Rat → Bool) : Except Err (List Rat) :=
   let ix := xs.zipIdx
